@@ -475,12 +475,14 @@ Proof.
   destruct args as [|a r]; [cbn; eauto|].
   rewrite zlen_cons. destruct (0 <? zlen r + 1) eqn:E; [|pose proof (zlen_nonneg _ r); lia].
   rewrite idx_head; cbn [res_bind].
-  assert (SL : slice_from (a :: r) 1 = Ok r)
-    by (rewrite slice_from_ok by (rewrite zlen_cons; pose proof (zlen_nonneg _ r); lia); reflexivity).
-  cbn [length] in L.
-  destruct (str_eqb a (b "-n")); [rewrite SL; cbn [res_bind]; apply IH; lia|].
-  destruct (str_eqb a (b "-e")); [rewrite SL; cbn [res_bind]; apply IH; lia|].
-  destruct (str_eqb a (b "-E")); [rewrite SL; cbn [res_bind]; apply IH; lia|eauto].
+  destruct (zlen a <? 2) eqn:E2; [eauto|].
+  use_idx a 0.
+  destruct (negb (N.eqb x MINUS)); [eauto|].
+  rewrite (slice_from_ok _ a 1) by lia. cbn [res_bind].
+  destruct (negb (forallb is_neE (skipn (Z.to_nat 1) a))); [eauto|].
+  destruct (fold_left echo_flag (skipn (Z.to_nat 1) a) (nl, de)) as [nl' de'].
+  rewrite slice_from_ok by (rewrite zlen_cons; pose proof (zlen_nonneg _ r); lia). cbn [res_bind].
+  change (Z.to_nat 1) with 1%nat; cbn [skipn]. cbn [length] in L. apply IH; lia.
 Qed.
 
 Lemma bi_echo_ok : forall args st, inv st -> okinv (bi_echo format args st).
